@@ -103,6 +103,7 @@ Section Proofs.
 Variable calc1 : nat -> nat -> option phase -> vec -> Q -> Q -> Q.
 Variable calcx : nat -> nat -> list (phase * vec) -> Q -> Q -> Q.
 Variable shared_key : bool.
+Variable cvol : nat -> phase -> Q -> Q -> Q.
 
 (* the property-package functions respect numeric equality of their arguments *)
 Definition calc1_respects : Prop := forall pkg name p z z' T T' P P',
@@ -116,10 +117,10 @@ Hypothesis calcx_ext : calcx_respects.
 Notation value_at := (value_at calc1 calcx).
 Notation get_property := (get_property calc1 calcx).
 Notation spec_read := (spec_read calc1 calcx).
-Notation step := (step calc1 calcx shared_key).
-Notation step_valid := (step_valid calc1 calcx shared_key).
-Notation run := (run calc1 calcx shared_key).
-Notation run_world := (run_world calc1 calcx shared_key).
+Notation step := (step calc1 calcx shared_key cvol).
+Notation step_valid := (step_valid calc1 calcx shared_key cvol).
+Notation run := (run calc1 calcx shared_key cvol).
+Notation run_world := (run_world calc1 calcx shared_key cvol).
 Notation read_all := (read_all calc1 calcx).
 
 Lemma value_at_ext pkg name l0 c0 lit ck :
@@ -446,6 +447,7 @@ Proof.
     destruct (get_property (mkw s c) i name flow nophase) as [w1 r] eqn:E. cbn [fst].
     apply (cr_get c (w_cs w1) s i name flow nophase); [apply GV; cbn; auto|].
     rewrite E. apply cr_refl.
+  - (* ORVol *) destruct (read_vol cvol s i) as [s1 v]. apply cr_refl.
   - (* OProxy *)
     cbn [fst w_cs]. destruct HP as [SK|NP]; [|discriminate NP].
     apply (cr_proxy c _ i SK); [apply GV; cbn; auto | apply cr_refl].
@@ -587,8 +589,8 @@ Proof.
 Qed.
 
 (* a freshly constructed single-phase stream is in the pstate it was constructed with *)
-Lemma new_stream_pstate calc1 calcx sk w d p T P pkg :
-  let w' := fst (step calc1 calcx sk w (ONew [d] [p] T P pkg)) in
+Lemma new_stream_pstate calc1 calcx sk cv w d p T P pkg :
+  let w' := fst (step calc1 calcx sk cv w (ONew [d] [p] T P pkg)) in
   pstate_of (w_st w') (length (objs (w_st w))) = mkps false [p] [d] T P /\
   (length (objs (w_st w)) = length (cobjs (w_cs w)) ->
    c_pkg (cobj_of (w_cs w') (length (objs (w_st w)))) = pkg /\
@@ -780,6 +782,7 @@ Section Align.
 Variable calc1 : nat -> nat -> option phase -> vec -> Q -> Q -> Q.
 Variable calcx : nat -> nat -> list (phase * vec) -> Q -> Q -> Q.
 Variable shared_key : bool.
+Variable cvol : nat -> phase -> Q -> Q -> Q.
 
 Definition aligned (w : world) : Prop := length (objs (w_st w)) = length (cobjs (w_cs w)).
 
@@ -798,7 +801,7 @@ Proof. revert w; induction l as [|j t IH]; intros w; cbn; auto. rewrite IH. appl
 Lemma lift_aligned w r : nob (fst r) = nob (w_st w) -> aligned w -> aligned (fst (lift w r)).
 Proof. unfold aligned, nob. cbn. intros -> A. exact A. Qed.
 
-Lemma step_aligned w o : aligned w -> aligned (fst (step calc1 calcx shared_key w o)).
+Lemma step_aligned w o : aligned w -> aligned (fst (step calc1 calcx shared_key cvol w o)).
 Proof.
   intros A. unfold step. destruct (forallb _ _); [|exact A].
   destruct w as [s c]. unfold aligned in A; cbn [w_st w_cs] in A.
@@ -875,7 +878,7 @@ Proof.
   - exact A.
 Qed.
 
-Lemma run_aligned ops w : aligned w -> aligned (run_world calc1 calcx shared_key w ops).
+Lemma run_aligned ops w : aligned w -> aligned (run_world calc1 calcx shared_key cvol w ops).
 Proof.
   revert w; induction ops as [|o t IH]; intros w A; [exact A|].
   rewrite run_world_cons. apply IH, step_aligned, A.
@@ -891,8 +894,8 @@ Proof.
   etransitivity; eassumption.
 Qed.
 
-Lemma step_new_cs calc1 calcx sk w fl ps T P pkg :
-  w_cs (fst (step calc1 calcx sk w (ONew fl ps T P pkg))) = new_cobj_fresh (w_cs w) pkg.
+Lemma step_new_cs calc1 calcx sk cv w fl ps T P pkg :
+  w_cs (fst (step calc1 calcx sk cv w (ONew fl ps T P pkg))) = new_cobj_fresh (w_cs w) pkg.
 Proof.
   destruct w as [s c]. unfold step. cbn [op_objs forallb]. unfold step_valid. cbn [w_st w_cs].
   destruct (new_tc s (T, P)) as [s1 tr].
@@ -900,20 +903,20 @@ Proof.
   destruct (new_obj s2 _) as [s3 n]. reflexivity.
 Qed.
 
-Lemma equals_fresh_stream calc1 calcx :
+Lemma equals_fresh_stream calc1 calcx cv :
   calc1_respects calc1 -> calcx_respects calcx ->
   forall ops i name flow nophase d p T P,
-    let w' := run_world calc1 calcx true w0 ops in
+    let w' := run_world calc1 calcx true cv w0 ops in
     (i < length (cobjs (w_cs w')))%nat ->
     pstate_of (w_st w') i = mkps false [p] [d] T P ->
-    let wn := fst (step calc1 calcx true w' (ONew [d] [p] T P (c_pkg (cobj_of (w_cs w') i)))) in
+    let wn := fst (step calc1 calcx true cv w' (ONew [d] [p] T P (c_pkg (cobj_of (w_cs w') i)))) in
     rd_equiv (snd (get_property calc1 calcx w' i name flow nophase))
              (snd (get_property calc1 calcx wn (length (objs (w_st w'))) name flow nophase)).
 Proof.
   intros H1 Hx ops i name flow nophase d p T P w' Hi HP wn.
   assert (A : aligned w') by (apply run_aligned; reflexivity).
-  assert (I' : Inv calc1 calcx (w_cs w')) by exact (run_inv calc1 calcx true H1 Hx ops w0 (or_introl eq_refl) (Inv_cs0 calc1 calcx)).
-  pose proof (new_stream_pstate calc1 calcx true w' d p T P (c_pkg (cobj_of (w_cs w') i))) as [NP NA].
+  assert (I' : Inv calc1 calcx (w_cs w')) by exact (run_inv calc1 calcx true cv H1 Hx ops w0 (or_introl eq_refl) (Inv_cs0 calc1 calcx)).
+  pose proof (new_stream_pstate calc1 calcx true cv w' d p T P (c_pkg (cobj_of (w_cs w') i))) as [NP NA].
   destruct (NA A) as [NK NL]. fold wn in NP, NK, NL.
   assert (In' : Inv calc1 calcx (w_cs wn)).
   { unfold wn. rewrite step_new_cs. apply new_cobj_fresh_inv. exact I'. }
